@@ -6,6 +6,7 @@
 #include "common.hpp"
 
 #include <fstream>
+#include <locale>
 
 #include "libphysica/Linear_Algebra.hpp"
 #include "libphysica/Natural_Units.hpp"
@@ -181,6 +182,42 @@ std::string handle(const std::string& op, Args& a)
 		if(r2.compare(0, 2, "ok") == 0)
 			return r1 + r2.substr(2);
 		return r1 + " import:" + r2;
+	}
+	if(op == "c20.rtloc" || op == "c20.rtlocL")
+	{
+		// round trip in a program whose GLOBAL C++ locale writes the decimal point as ',' (a numpunct facet installed by the
+		// caller, as std::locale("de_DE.UTF-8") would): export and import both inside one forked body; only the values
+		// read back are returned (the byte model is for the classic locale)
+		struct Comma : std::numpunct<char>
+		{
+			char do_decimal_point() const override { return ','; }
+		};
+		std::string h = unhex(a.tok());
+		std::string p = new_path();
+		Cleanup c{p};
+		if(op == "c20.rtlocL")
+		{
+			double u = a.dbl();
+			auto xs	 = a.dbls();
+			a.end();
+			return run_forked([&](Out& o) {
+				std::locale::global(std::locale(std::locale::classic(), new Comma));
+				Export_List(p, xs, u, h);
+				auto back = Import_List(p, u, header_lines(h));
+				std::locale::global(std::locale::classic());	  // the caller restores what the caller installed
+				o.list(back);
+			});
+		}
+		auto us = a.dbls();
+		auto t	= table(a);
+		a.end();
+		return run_forked([&](Out& o) {
+			std::locale::global(std::locale(std::locale::classic(), new Comma));
+			Export_Table(p, t, us, h);
+			auto back = Import_Table(p, us, header_lines(h));
+			std::locale::global(std::locale::classic());	  // the caller restores what the caller installed
+			put_table(o, back);
+		});
 	}
 	if(op == "c20.expfunc" || op == "c20.expfuncL")
 	{
